@@ -18,6 +18,7 @@ RULE = (
     "Non-trivial: >= 1 wait check observed; distinct = canonical program shape / (template, parameters)."
     " Also a lagging waiter: the producer re-emits in every iteration while the waiter's data input changes every second iteration (both list orders, limits 2-7)."
     ' Also: histories of runs on one cache of loops whose waiting gate is cache=True (decisions served from the cache), judged on the delivered NodeStart/NodeEnd events.'
+    ' Directed: a route gate with an emit that declines to route (None / empty list) still produces its signal on every run (DAG and loop); two waiters of one once-produced signal whose histories diverge (one stale without a new production, one still waiting for its data), both declaration orders.'
 )
 ASSUMPTIONS = [
     "production = the producer's function returning (call log exit); step membership from the get_ready_nodes tap",
@@ -179,6 +180,58 @@ def reopened_gate_and_falsy_values(ctx):
     ctx.case({"directed": "reopened-gate-and-falsy-values"}, True)
 
 
+def declining_gate_and_diverging_cowaiters(ctx):
+    """Directed. (1) The producer of the awaited signal is a ROUTE gate that sometimes declines to route (None without a
+    fallback, or an empty multi-target list): every run of the gate is a production of its signal, so the waiter runs
+    once per run of the gate - in a DAG and in a counter loop where the gate declines on odd counts. (2) Two waiters of
+    ONE signal that is produced once, whose histories diverge: `audit` reads the loop counter (it consumed the signal
+    and is stale again without a new production: it must NOT run again), `report` reads a value that arrives three steps
+    later (it must still run once); both declaration orders."""
+    for multi in (False, True):
+        decline = [] if multi else None
+        # DAG
+        spec = {"name": "decl", "nodes": [
+            {"k": "route", "name": "triage", "params": [{"n": "c"}], "targets": ["handle"], "multi": multi, "table": [decline], "key": "c", "emit": ["triaged"], "open": False},
+            {"k": "fn", "name": "handle", "params": [{"n": "c"}], "outs": ["h"], "beh": ["mark", "c", "h"]},
+            {"k": "fn", "name": "journal", "params": [{"n": "c"}], "outs": ["j"], "wait": ["triaged"], "beh": ["mark", "c", "j"]},
+        ], "bind": {}}
+        for runner in ("sync", "async"):
+            one(ctx, spec, {"c": 0}, runner, f"declining-gate-dag(multi={multi})-{runner}", loop_ref={"counts": {"triage": 1, "handle": 0, "journal": 1}, "values": {"j": ("j", 0)}})
+            ctx.obs["declining_gate_runs"] += 1
+        # loop: the gate declines on odd counts
+        for N in (2, 3, 4):
+            go = ["handle"] if multi else "handle"
+            spec = {"name": "decl", "nodes": [
+                {"k": "fn", "name": "inc", "params": [{"n": "c"}], "outs": ["c"], "beh": ["inc", "c"]},
+                {"k": "route", "name": "again", "params": [{"n": "c"}], "targets": ["inc", "END"], "cond": ["lt", "c", N], "then": "inc", "else": "END", "open": False},
+                {"k": "route", "name": "triage", "params": [{"n": "c"}], "targets": ["handle"], "multi": multi, "table": [go, decline], "key": "c", "emit": ["triaged"], "open": False},
+                {"k": "fn", "name": "handle", "params": [{"n": "c"}], "outs": ["h"], "beh": ["mark", "c", "h"]},
+                {"k": "fn", "name": "journal", "params": [{"n": "c"}], "outs": ["j"], "wait": ["triaged"], "beh": ["mark", "c", "j"]},
+            ], "bind": {}}
+            last_even = N if N % 2 == 0 else N - 1
+            lref = {"counts": {"inc": N, "again": N + 1, "triage": N + 1, "journal": N + 1, "handle": N // 2 + 1}, "values": {"c": N, "j": ("j", N), "h": ("h", last_even)}}
+            for runner in ("sync", "async"):
+                one(ctx, spec, {"c": 0}, runner, f"declining-gate-loop(N={N},multi={multi})-{runner}", loop_ref=lref)
+                ctx.obs["declining_gate_runs"] += 1
+    for report_first in (False, True):
+        audit = {"k": "fn", "name": "audit", "params": [{"n": "c"}], "outs": ["au"], "wait": ["opened"], "beh": ["mark", "c", "au"]}
+        report = {"k": "fn", "name": "report", "params": [{"n": "late"}], "outs": ["rp"], "wait": ["opened"], "beh": ["mark", "late", "rp"]}
+        nodes = [
+            {"k": "fn", "name": "open_", "params": [{"n": "x"}], "outs": ["o"], "emit": ["opened"], "beh": ["const", 1]},
+            {"k": "fn", "name": "s1", "params": [{"n": "x"}], "outs": ["a1"], "beh": ["const", 1]},
+            {"k": "fn", "name": "s2", "params": [{"n": "a1"}], "outs": ["a2"], "beh": ["inc", "a1"]},
+            {"k": "fn", "name": "s3", "params": [{"n": "a2"}], "outs": ["late"], "beh": ["inc", "a2"]},
+            {"k": "fn", "name": "inc", "params": [{"n": "c"}], "outs": ["c"], "beh": ["inc", "c"]},
+            {"k": "route", "name": "again", "params": [{"n": "c"}], "targets": ["inc", "END"], "cond": ["lt", "c", 5], "then": "inc", "else": "END", "open": False},
+        ] + ([report, audit] if report_first else [audit, report])
+        spec = {"name": "cow", "nodes": nodes, "bind": {}}
+        lref = {"counts": {"open_": 1, "s1": 1, "s2": 1, "s3": 1, "inc": 5, "again": 6, "audit": 1, "report": 1}, "values": {"o": 1, "a1": 1, "a2": 2, "late": 3, "c": 5, "au": ("au", 0), "rp": ("rp", 3)}}
+        for runner in ("sync", "async"):
+            one(ctx, spec, {"x": 0, "c": 0}, runner, f"diverging-cowaiters(report_first={report_first})-{runner}", loop_ref=lref)
+            ctx.obs["diverging_cowaiter_runs"] += 1
+    ctx.case({"directed": "declining-gate-and-diverging-cowaiters"}, True)
+
+
 def run(ctx):
     n = 700 if ctx.tier == "quick" else 9000
     if ctx.replay:
@@ -190,6 +243,7 @@ def run(ctx):
     if ctx.shard[0] == 0:
         cached_waiter_histories(ctx)
         reopened_gate_and_falsy_values(ctx)
+        declining_gate_and_diverging_cowaiters(ctx)
     sysn = 0
     for N in range(0, 10 if ctx.tier == "thorough" else 6):
         for kind, obs in (("counter", 0), ("chat", 0), ("counter", 2)):
